@@ -27,6 +27,9 @@ MODULES = {
         dict(name='c15_decenter_scale', file=VR + 'decenter.py', cls='DecenterVariable', func='scale'),
         dict(name='c15_decenter_inverse_scale', file=VR + 'decenter.py', cls='DecenterVariable',
              func='inverse_scale'),
+        dict(name='c15_poly_scale', file=VR + 'polynomial_coeff.py', cls='PolynomialCoeffVariable', func='scale'),
+        dict(name='c15_poly_inverse_scale', file=VR + 'polynomial_coeff.py', cls='PolynomialCoeffVariable',
+             func='inverse_scale'),
         dict(name='c15_get_thickness', file='optiland/surfaces/surface_group.py', cls='SurfaceGroup',
              func='get_thickness', types={'self.positions': 'list', 'surface_number': 'int'}),
         dict(name='c15_radius_get', file=VR + 'radius.py', cls='RadiusVariable', func='get_value',
